@@ -88,7 +88,7 @@ TxOps == {"Send", "ActivateSelf", "ActivateOther", "InviteF", "Kill", "KillInvit
           "Delegate", "Undelegate", "StoreToIpfs", "ReplenishSelf",
           "InviteX", "InviteXByS", "KillInviteeX", "KillInviteeXByG", "KillDelegatorX", "KillDelegatorXByG", "ReplenishX",
           "DelegateDX", "ActivateF"}
-BlockOps == {"Flush", "NextPeriod", "EpochEnd", "Penalty"}
+BlockOps == {"Flush", "NextPeriod", "Ceremony", "EpochEnd", "Penalty"}
 Ceremonial == {"AnswersHash", "ShortAnswers", "LongAnswers", "Evidence"}
 \* blockchain/types TxType of an attempt (coverage tables)
 TxTypeOf(n) == CASE n = "Send" -> 0 [] n \in {"ActivateSelf", "ActivateOther", "ActivateF"} -> 1 [] n \in {"InviteF", "InviteX", "InviteXByS"} -> 2
@@ -240,6 +240,7 @@ EpochEff(s, o) ==
 Enabled(s, o) ==
     CASE o.n = "Flush"      -> Pending(s) /\ s.per # 4
       [] o.n = "NextPeriod" -> s.per < 4 /\ (s.per = 3 => NoPendingDelegation(s))
+      [] o.n = "Ceremony"   -> s.per = 0 /\ NoPendingDelegation(s)       \* the four period blocks in a row (a ceremony x does not attend)
       [] o.n = "Penalty"    -> s.per = 0 /\ s.on /\ s.pen = "none" /\ ~s.psw
       [] o.n = "EpochEnd"   -> /\ s.per = 4 /\ NoPendingDelegation(s)
                                /\ o.out \in Outcomes(s)
@@ -255,6 +256,7 @@ StartPeriod(s) == [s EXCEPT !.per = s.per + 1, !.pen = IF s.per = 0 /\ s.pen = "
 BlockEff(s, o) ==
     CASE o.n = "Flush"      -> Flush(s, IsPool(s), FALSE, s.rv)
       [] o.n = "NextPeriod" -> StartPeriod(s)
+      [] o.n = "Ceremony"   -> StartPeriod(StartPeriod(StartPeriod(StartPeriod(s))))
       [] o.n = "Penalty"    -> [s EXCEPT !.pen = "delayed"]
       [] o.n = "EpochEnd"   -> EpochEff(s, o)
 
